@@ -50,8 +50,8 @@ def gen_case(rng, i):
         for b, name in enumerate(['where', 'order', 'distinct', 'top', 'join']):
             if (i >> b) & 1:
                 feats.add(name)
-        kind = ['select', 'select', 'update', 'except', 'agg', 'count'][(i // 32) % 6]
-        join = 'join' in feats and kind in ('select', 'update')
+        kind = ['select', 'select', 'update', 'except', 'agg', 'count', 'starjoin'][(i // 32) % 7]
+        join = ('join' in feats and kind in ('select', 'update')) or kind == 'starjoin'
         B = None
         if join:
             wb = rng.randrange(2, 4)
@@ -67,6 +67,16 @@ def gen_case(rng, i):
             q = g.gen_update({'where'} & feats | ({'join'} if join else set()))
             if q['join']:
                 q['join']['type'] = 'JOIN'
+        elif kind == 'starjoin':
+            # a lone star item over a join with duplicate keys on both sides and cells that need quoting
+            for r in B:
+                r[0] = rng.choice(A)[0]
+            A.append(list(rng.choice(A)))
+            B.append(list(rng.choice(B)))
+            q = g.gen_select({'join'} | ({'where', 'order', 'top'} & feats))
+            q['items'] = [{'kind': rng.choice(['astar', 'bstar', 'star', 'bstar'])}]
+            q['join']['type'] = rng.choice(['JOIN', 'INNER JOIN'])
+            q['join']['pairs'] = [[['field', 'a', 0, 'var'], ['field', 'b', 0, 'var'], '==', False]]
         elif kind == 'except':
             q = g.gen_select({'except'} | ({'where', 'order', 'top'} & feats))
             if q.get('except') and len(q['except']) >= wa:
